@@ -564,40 +564,6 @@ def impl_dict_props(case):
         return _exc(e)
 
 
-def impl_front(case):
-    """what RxBackend.write / NxBackend.write hand to write_dicts (captured, nothing is written)"""
-    import geff._graph_libs._networkx as mnx
-    import geff._graph_libs._rustworkx as mrx
-
-    warnings.simplefilter("ignore")
-    got = {}
-
-    def capture(geff_store=None, node_data=None, edge_data=None, node_prop_names=None, edge_prop_names=None,
-                metadata=None, **kw):
-        got["directed"] = bool(metadata.directed)
-        got["nodes"] = [[str(int(i)), {k: enc(v) for k, v in a.items()}] for i, a in node_data]
-        got["edges"] = [[[str(int(u)), str(int(v))], {k: enc(w) for k, w in a.items()}] for (u, v), a in edge_data]
-        got["node_prop_names"] = sorted(node_prop_names)
-        got["edge_prop_names"] = sorted(edge_prop_names)
-
-    G = case["G"]
-    mod = mrx if case["writer"] == "rx" else mnx
-    old = mod.write_dicts
-    mod.write_dicts = lambda *a, **k: capture(*a, **k)
-    try:
-        if case["writer"] == "rx":
-            g, nid = build_rx(G, case.get("layout", {}))
-            kw = {} if nid is None else {"node_id_dict": nid}
-            mrx.RxBackend.write(g, None, **kw)
-        else:
-            mnx.NxBackend.write(build_nx(G), None)
-    except Exception as e:  # noqa: BLE001
-        return _exc(e)
-    finally:
-        mod.write_dicts = old
-    return got
-
-
 # ============================================================================ generators
 FLOATS = [0.0, -0.0, 1.5, -2.25, 1e300, 5e-324, float("inf"), float("-inf"), float("nan"), 3.0, 0.1]
 STRS = ["", "a", "bc", "é☃", "long string value", " x ", "0", "True"]
@@ -674,14 +640,10 @@ EDGE_PATTERNS = [[], [(0, 1)], [(1, 0)], [(0, 0)], [(0, 1), (1, 2)], [(2, 1), (0
                  [(0, 1), (0, 2), (1, 1)], [(2, 0), (1, 0), (2, 1)]]
 
 
-def with_presence(ids_or_keys, name, values_for, mask):
-    return [[x, ({name: values_for[i]} if mask >> i & 1 else {})] for i, x in enumerate(ids_or_keys)]
-
-
-def gen_exhaustive(rng):
+def gen_exhaustive(rng, idsets=("small", "sparse", "around63", "large")):
     """<=3 nodes / <=3 edges x presence subsets x kinds (node sweep and edge sweep)"""
     out = []
-    for idset in ("small", "sparse", "around63", "large"):
+    for idset in idsets:
         for n in range(0, 4):
             ids = [str(x) for x in ID_SETS[idset][:n]]
             for kind in KINDS:
@@ -1446,8 +1408,8 @@ def run(ck: common.Check):
     # ---- A: networkx / rustworkx writers
     items = [{"G": c["G"], "tag": "corpus:" + c.get("name", "?"), **{k: c[k] for k in ("axes", "readers") if k in c}} for c in corpus() if "G" in c]
     items += [{"G": it["G"], "tag": "special:" + tag} for tag, _, it in SPECIAL]
-    items += gen_exhaustive(rng)
-    nrand = 400 if ck.quick else 3500
+    items += gen_exhaustive(rng, ("small", "around63") if ck.quick else ("small", "sparse", "around63", "large"))
+    nrand = 300 if ck.quick else 3500
     items += [gen_random_graph(rng) for _ in range(nrand)]
     items += [gen_random_graph(rng, nmax=8, kinds=[*KINDS, "npscalar", "npscalar", "npscalar"]) for _ in range(nrand // 4)]
     items += sg_cross_items(rng, 24 if ck.quick else 200)
@@ -1457,10 +1419,12 @@ def run(ck: common.Check):
     t1 = __import__("time").time()
     do_roundtrips(ck, drv, cases, stats)
     phase["roundtrips"] = round(__import__("time").time() - t1, 1)
-    ck.extra["exhaustive"] = "<=3 nodes / <=3 edges x presence subsets x 10 kinds x 4 id sets (the enumerated sub-space only)"
+    ck.extra["exhaustive"] = ("<=3 nodes / <=3 edges x presence subsets x 10 kinds x id sets "
+                              + ("{small, around 2^63}" if ck.quick else "{small, sparse, around 2^63, all >= 2^63}")
+                              + " (the enumerated sub-space only)")
 
     # ---- B: construct from one in-memory geff through every backend
-    nmem = 1200 if ck.quick else 12000
+    nmem = 800 if ck.quick else 12000
     cm = [{"stream": "construct", "M": gen_mem(rng), "backends": ["nx", "rx"]} for _ in range(nmem)]
     cm += [{"stream": "construct", "M": gen_mem(rng, sg_domain=True), "backends": ["nx", "rx", "sg"]} for _ in range(nmem // 8)]
     cm += [{"stream": "construct", "M": gen_mem(rng, valid=False), "backends": ["nx", "rx"]} for _ in range(nmem // 8)]
@@ -1478,7 +1442,7 @@ def run(ck: common.Check):
     phase["sg"] = round(__import__("time").time() - t1, 1)
 
     # ---- D: the dict -> array layer directly
-    nd = 3000 if ck.quick else 40000
+    nd = 2000 if ck.quick else 40000
     cd = [{"stream": "dict", **gen_dict_case(rng)} for _ in range(nd)]
     cd += [{"stream": "dict", **gen_dict_case(rng, mixed=True)} for _ in range(nd // 4)]
     t1 = __import__("time").time()
